@@ -103,8 +103,11 @@ def run_pairs(desc, ctx):
         orig_paths = [gen.write_input(dict(i, style={}), d0, None) for i in ds["inputs"]]
         orig_out = {}
         for rep in range(6):
-            metric = rng.choice(sorted(table))
+            metric = rng.choice(sorted(table) + ["obs", "fcst"])
             argv, used = table[metric]
+            if metric in ("obs", "fcst", "mae", "bias") and rng.random() < 0.6:
+                # aggregators other than the mean: a slice without a valid case has no sum, extreme or count either
+                argv = argv + ["-agg", rng.choice(["sum", "min", "max", "range", "median", "0.5", "count", "std", "iqr"])]
             field = rng.choice(used)
             victim = rng.randrange(F)
             mode = rng.choice(["scattered", "scattered", "slice", "time-slice", "whole-input"])
@@ -193,7 +196,7 @@ def run_pairs(desc, ctx):
                                           % (metric, axis, field, victim, enc, mode, key, vals, rb[key]), case)
                     else:
                         ctx.count("allmissing_rows")
-                        if not all(v.lower() == "nan" for v in vals):
+                        if not all(v.lower() == "nan" or (v == "0" and "count" in argv) for v in vals):
                             ctx.violation("number-from-no-valid-case|%s" % metric,
                                           "-m %s %s -x %s: slice %s has no valid case (field %s of input %d is missing there: %s, %s) but the "
                                           "score is %s" % (metric, " ".join(argv), axis, key, field, victim, enc, mode, vals), case)
@@ -381,6 +384,40 @@ def ref_fss_spatial(ds, k, thr, scale_km):
     return (unc - sum(bs) / len(bs)) / unc
 
 
+def ref_fss_temporal(ds, k, thr, scale):
+    """Temporal fractions skill score of input k at one scale (difference between two lead times): fractions over the lead
+    times of the window, per (time, location); a window without any valid case is dropped."""
+    times, leads, locs = refmodel.common_dims(ds)
+    vals = {}
+    for t in times:
+        for l in leads:
+            for s in locs:
+                vals[(t, l, s[0])] = refmodel.case_values(ds, k, [("obs",), ("fcst",)], t, l, s[0])
+    errs, fos = [], []
+    for i0, la in enumerate(leads):
+        for i1, lb in enumerate(leads):
+            if abs((lb - la) - scale) > 1e-9 or scale <= 0:
+                continue
+            win = leads[i0:i1 + 1]
+            for t in times:
+                for s in locs:
+                    v = [vals[(t, l, s[0])] for l in win]
+                    v = [x for x in v if x is not None]
+                    if not v:
+                        continue
+                    fo = sum(1.0 for x in v if x[0] > thr) / len(v)
+                    ff = sum(1.0 for x in v if x[1] > thr) / len(v)
+                    errs.append((fo - ff) ** 2)
+                    fos.append(fo)
+    if not errs:
+        return float("nan")
+    mo = sum(fos) / len(fos)
+    unc = mo * (1 - mo)
+    if not unc > 0:
+        return float("nan")
+    return (unc - sum(errs) / len(errs)) / unc
+
+
 def run_fss(desc, ctx):
     """Fractions skill score (neighbourhood fractions): a (time, lead time) whose whole neighbourhood is missing must be
     dropped, never counted as 'no event, perfectly forecast'.  Oracles: marked == deleted, and an independent evaluation of the
@@ -395,7 +432,7 @@ def run_fss(desc, ctx):
         thr = rng.choice([3.0, 5.0, 6.0, 8.0])
         victim = rng.randrange(F)
         field = rng.choice(["obs", "fcst"])
-        mode = rng.choice(["time-slice", "lead-slice", "run", "run", "scattered"])
+        mode = rng.choice(["time-slice", "lead-slice", "run", "run", "scattered", "outage", "outage"])
         if mode == "time-slice":
             t0 = rng.choice(times)
             K = [c for c in cases if c[0] == t0]
@@ -405,6 +442,15 @@ def run_fss(desc, ctx):
         elif mode == "run":
             runs = rng.sample([(t, l) for t in times for l in leads], max(1, len(times) * len(leads) // 3))
             K = [c for c in cases if (c[0], c[1]) in runs]
+        elif mode == "outage":
+            # a station is silent over two or more consecutive lead times of some runs: whole temporal windows have no case
+            K = []
+            for _o in range(rng.randint(1, 3)):
+                t0, s0 = rng.choice(times), rng.choice(locs)[0]
+                i0 = rng.randrange(len(leads))
+                i1 = min(len(leads), i0 + rng.randint(2, 3))
+                K += [(t0, l, s0) for l in leads[i0:i1]]
+            K = sorted(set(K))
         else:
             K = rng.sample(cases, max(1, len(cases) // 4))
         vin = ds["inputs"][victim]
@@ -474,6 +520,19 @@ def run_fss(desc, ctx):
                     ctx.violation("marked-differs-from-deleted|%s|fss" % field,
                                   "-m fss -r %s -x %s: field %s of input %d marked missing (%s, %s) gives row %s = %s, but with those rows "
                                   "deleted %s" % (thr, axis, field, victim, enc, mode, key, vals, rb[key]), case)
+                if axis == "leadtime":
+                    for k in range(F):
+                        want = ref_fss_temporal(A, k, thr, float(key[0]))
+                        ctx.count("fss_reference_checks")
+                        if want == want:
+                            nontrivial = True
+                        got = vals[k]
+                        ok = (got.lower() == "nan") if want != want else (got.lower() != "nan" and abs(float(got) - want) < 1e-5 * max(1.0, abs(want)))
+                        if not ok:
+                            ctx.violation("fss-temporal-counts-missing-window|%s" % mode,
+                                          "-m fss -r %s -x leadtime scale %s h input %d: csv %s, window fractions over the valid cases give %r "
+                                          "(field %s of input %d missing at %d cases: %s, %s)"
+                                          % (thr, key[0], k, got, want, field, victim, len(K), enc, mode), case)
                 if axis == "location":
                     for k in range(F):
                         want = ref_fss_spatial(A, k, thr, float(key[0]))
